@@ -166,6 +166,9 @@ func newHostileEnv(opts []string) (*hostileEnv, error) {
 		for i := 0; i < 3; i++ {
 			m := dynamicpb.NewMessage(reqDesc())
 			if err := ss.RecvMsg(m); err != nil {
+				if i == 0 && err != io.EOF {
+					return err // a first message that cannot be read fails the call
+				}
 				break
 			}
 			if md.IsStreamingServer() || i == 0 {
@@ -210,6 +213,20 @@ func hostileRequests(r *rng, n int) []hreq {
 	for _, p := range paths {
 		for _, m := range []string{"GET", "POST", "PUT", "DELETE", "PATCH", "get", "LIST", "WEBSOCKET", ""} {
 			add(hreq{entry: "http", desc: "path", method: m, path: p, query: queries[r.Intn(len(queries))]})
+		}
+	}
+	// every segment prefix and one-step extension of a valid path, under every verb incl. a WebSocket upgrade
+	upg := map[string]string{"Upgrade": "websocket", "Connection": "Upgrade", "Sec-WebSocket-Key": "dGhlIHNhbXBsZSBub25jZQ==", "Sec-WebSocket-Version": "13"}
+	for _, full := range []string{"/h/typed/1/true/RED", "/h/deep/aa/bb/cc/d/e", "/h/dv/books/a/b:read", "/h/multi/a/x/b/c/d", "/h/bf/x", "/h/ws/x", "/t/unary", "/vs.H/Unary"} {
+		segs := strings.Split(strings.TrimPrefix(full, "/"), "/")
+		for k := 1; k <= len(segs); k++ {
+			pre := "/" + strings.Join(segs[:k], "/")
+			for _, suf := range []string{"", "/", ":v", "/zz", ":read", "/*", "/**"} {
+				for _, m := range []string{"GET", "POST", "DELETE", "PATCH", "PUT"} {
+					add(hreq{entry: "http", desc: "prefix", method: m, path: pre + suf})
+				}
+				add(hreq{entry: "http", desc: "prefix+upgrade", method: "GET", path: pre + suf, hdr: upg})
+			}
 		}
 	}
 	for _, q := range queries {
